@@ -146,6 +146,13 @@ Theorem C10_mutation_isolated : forall spec_ren h x h' r q v,
 Proof. exact mutation_isolated. Qed.
 Print Assumptions C10_mutation_isolated.
 
+(* ... and so for every sequence of operations none of which is applied to an object of q *)
+Theorem C10_mutation_isolated_seq : forall spec_ren q v xs h h',
+  steps spec_ren h xs = Some h' -> Alias.pobs h q = Some v -> never_applied_to spec_ren q h xs ->
+  Alias.pobs h' q = Some v.
+Proof. exact mutation_isolated_seq. Qed.
+Print Assumptions C10_mutation_isolated_seq.
+
 (* operations that return a new pipeline leave every existing pipeline unchanged *)
 Theorem C10_original_unchanged : forall spec_ren h x h' r q v,
   Alias.step spec_ren h x = Some (h', r) -> Alias.target x = None -> Alias.pobs h q = Some v -> Alias.pobs h' q = Some v.
